@@ -184,9 +184,33 @@ def run_table(case, ctx):
     from mlinsights.timeseries.utils import build_ts_X_y
     b = box(case.get("tier", "quick"))
     n = case["n"]
+    from vrt.poison import Poison
+    reused = {}        # one model object per kind, re-parametrised between calls (same series length n throughout)
     for dtype, past, delay2, ncol, with_w in itertools.product(
             b["dtypes"], b["past"], b["delay2"], b["ncol"], (False, True)):
         nrow = n - delay2 - past + 2
+        if nrow == 0 and n >= 1:
+            # the exact boundary length: the plain table is the (valid) empty table, the same_rows table is NaN
+            # everywhere - judged under the poisoned allocator, stale memory would look like data
+            X0, y0, w0 = coded(n, ncol, with_w, dtype)
+            try:
+                with Poison(["mlinsights.timeseries.utils"]):
+                    p0 = build_ts_X_y(make_model(0, past, delay2), X0, y0, w0, same_rows=False)
+                    q0 = build_ts_X_y(make_model(0, past, delay2), X0, y0, w0, same_rows=True)
+                ctx.hit("build_ts_X_y.empty_table")
+                if p0[0].shape[0] != 0 or p0[1].shape[0] != 0:
+                    ctx.violation("C20/build_ts_X_y/row-count", "n=%d, past=%d, delay2=%d: %d rows, expected the empty "
+                                  "table" % (n, past, delay2, p0[0].shape[0]), n=n, past=past, delay2=delay2)
+                if q0[0].shape[0] != n or not (numpy.isnan(numpy.asarray(q0[0], dtype=float)).all()
+                                               and numpy.isnan(numpy.asarray(q0[1], dtype=float)).all()):
+                    ctx.violation("C20/build_ts_X_y/same-rows-mismatch/empty-table", "n=%d, past=%d, delay2=%d: the "
+                                  "same_rows table of the empty table is not %d rows of NaN (uninitialised cells)" % (
+                                      n, past, delay2, n), n=n, past=past, delay2=delay2, dtype=dtype)
+            except Exception as e:
+                if dtype.startswith("float"):
+                    ctx.violation("C20/build_ts_X_y/raised", "empty table: %s: %s" % (type(e).__name__, e), n=n,
+                                  past=past, delay2=delay2)
+            continue
         if nrow < 1:
             ctx.excluded("nrow<1")
             continue
@@ -234,11 +258,24 @@ def run_table(case, ctx):
         keep = [None if a is None else a.copy() for a in (X, y, w)]
         npint = (n + past + delay2) % 3 == 0        # past / delay2 as numpy.int64 (values read from an array)
         cfg["numpy_int_params"] = npint
-        m = make_model((past + delay2 + ncol + n) % 4, numpy.int64(past) if npint else past,
-                       numpy.int64(delay2) if npint else delay2)
+        mk = (past + delay2 + ncol + n) % 4
+        if (n + ncol) % 2 == 0:
+            m = make_model(mk, numpy.int64(past) if npint else past, numpy.int64(delay2) if npint else delay2)
+        else:
+            # the SAME model object as in earlier configurations, re-parametrised (set_params / attributes)
+            if mk not in reused:
+                reused[mk] = make_model(mk, 1, 2)
+            m = reused[mk]
+            if hasattr(m, "set_params") and mk != 0:
+                m.set_params(past=past, delay2=delay2)
+            else:
+                m.past, m.delay2 = past, delay2
+            cfg["model_object"] = "reused-and-reparametrised"
+            ctx.hit("build_ts_X_y.reused_model")
         try:
-            plain = build_ts_X_y(m, X, y, w, same_rows=False)
-            padded = build_ts_X_y(m, X, y, w, same_rows=True)
+            with Poison(["mlinsights.timeseries.utils"]):
+                plain = build_ts_X_y(m, X, y, w, same_rows=False)
+                padded = build_ts_X_y(m, X, y, w, same_rows=True)
         except Exception as e:
             ctx.violation("C20/build_ts_X_y/raised", "%s: %s" % (type(e).__name__, e), cfg=cfg)
             continue
